@@ -229,7 +229,7 @@ pub fn property() -> Property {
                 name: "single",
                 rule: "C01 single-bar histories (incl. set_tab_width, suspend, println, finish*, drop) x fault plan (index k among the fault-free run's terminal calls, mode once/all-later/every-second, 3 error kinds); no op may unwind, getters must equal the fault-free twin after every op; non-trivial = the fault fired inside an op (labelled by the op it struck)",
                 strategy: |t| (c01::case_strategy(t), fault_strategy()).prop_map(|(bar, fault)| SingleCase { bar, fault }).boxed(),
-                cases: |t| t.pick(4_000, 200_000),
+                cases: |t| t.pick(4_000, 800_000),
                 run: run_single,
                 signature: no_signature,
                 essential: &["set_tab_width", "suspend", "println", "finish", "draw", "drop"],
@@ -251,7 +251,7 @@ pub fn property() -> Property {
                         })
                         .boxed()
                 },
-                cases: |t| t.pick(3_000, 150_000),
+                cases: |t| t.pick(3_000, 600_000),
                 run: run_multi,
                 signature: no_signature,
                 essential: &["set_tab_width", "suspend", "println", "clear", "finish", "draw", "drop", "set_draw_target"],
